@@ -32,7 +32,8 @@ type vfPausePlan struct {
 	// already waiting, and the server stays silent after the resume: the read must still time out.
 	SilentFirst bool `json:"server_silent_from_before_the_pause,omitempty"`
 	// Resplit: one acknowledgement takes 6.5 s (timeout 20 s), so the sender cuts its buffer size to a sixth and sends the blocks
-	// it had already prepared in pieces over a slow uplink (100 ms per piece); the pause begins while a block is under way.
+	// it had already prepared in pieces over a slow uplink (550 ms per piece, so that the size does not grow back at once); the
+	// pause begins while a block is under way.
 	Resplit bool `json:"pause_while_a_block_is_sent_in_pieces,omitempty"`
 }
 
@@ -167,7 +168,7 @@ func vfPauseCase(c *vfCtx, si int, sc vfScenario, k int) {
 		class = "resplit"
 		plan.Resplit = true
 		plan.Tau = 20
-		plan.PauseMs = []int{1000}
+		plan.PauseMs = []int{2000}
 		plan.Dir, msgs = "s2c", bs2c
 		plan.Index = acks[r.Intn(vfMin(len(acks), 6))]
 		plan.Type = msgs[plan.Index].Type
@@ -307,7 +308,7 @@ func vfPauseCase(c *vfCtx, si int, sc vfScenario, k int) {
 			slowUplink.Store(true)
 			go func() {
 				defer close(cyclesDone)
-				time.Sleep(350 * time.Millisecond)
+				time.Sleep(800 * time.Millisecond) // the second piece of the first re-split block is under way
 				cycles()
 				time.Sleep(300 * time.Millisecond)
 				slowUplink.Store(false)
@@ -343,7 +344,8 @@ func vfPauseCase(c *vfCtx, si int, sc vfScenario, k int) {
 	if plan.Stall || plan.Resplit {
 		per := 200 * time.Millisecond
 		if plan.Resplit {
-			per = 100 * time.Millisecond
+			// above the 500 ms below which a prompt acknowledgement would double the buffer size again
+			per = 550 * time.Millisecond
 		}
 		s.cliW().SetGate(func(ev vfGateEvent) {
 			if ev.Before && ev.Type == "DATA" && slowUplink.Load() {
